@@ -82,7 +82,7 @@ func perturbsFor(v Variant) (quote []string, direct []string) {
 		if !v.Loosen {
 			q = append(q, "qsrc", "qsport")
 		}
-		return q, []string{"sport", "dport"}
+		return q, []string{"sport", "dport", "ack", "ack"}
 	case "sack":
 		q := []string{"qdst", "qdport", "qseq", "bump", "foreign"}
 		if !v.Loosen {
